@@ -25,7 +25,8 @@ class Func:
         self.name = name
         self.node = node
         self.parent = parent
-        self.decorators = [dotted(d) or '' for d in node.decorator_list]
+        self.decorators = [dotted(d) or (dotted(d.func) if isinstance(d, ast.Call) else '') or ''
+                           for d in node.decorator_list]
         a = node.args
         self.posparams = [p.arg for p in a.posonlyargs + a.args]
         self.kwonly = [p.arg for p in a.kwonlyargs]
